@@ -77,6 +77,17 @@ def check_model(m, acc, fam, k, only_edge=None):
         acc.violation(None, case0, {"what": "negate raised", "exc": repr(e), "model": show(m)})
         return
     acc.n("transitions", 4)
+    try:
+        same = bind(m)[0]
+        t1 = structure(same.negate())
+        t2 = structure(same.negate())
+        still = [same.evaluate(a).as_tuple() for a in alphas]
+    except BaseException as e:
+        acc.violation(None, case0, {"what": "negate twice on one object raised", "exc": repr(e), "model": show(m)})
+        return
+    if t1 != t2 or still != [(e, e) for e in expect]:
+        acc.violation(None, case0, {"what": "negate() called twice on one object gives two different results / changes the object", "model": show(m)})
+        return
     for name, (neg, want, must_be_safe, keep_id) in edges.items():
         if only_edge is not None and name != only_edge:
             continue
